@@ -19,7 +19,9 @@ RULE = ("same program / history generator as C01 (DAGs of 3-12 nodes, every sign
         "equal-value writes, arena signals / memos disposed in the middle of the history), half of the "
         "cases with 1-3 effects (Effect::new, RenderEffect, watch, isomorphic; some writing signals) and schedules (poll the "
         "k-th ready task, run to idle); plus the 'zones' (untrack zones with several reads), 'immediate' (ImmediateEffect subscribers, "
-        "oracle only) and 'deep' (chains of 270-700 memos) families of C01. Since the anchor coverage audit half of the cases of every stream carry API VARIANTS on their nodes (fields the model's decoder does not read, so the traces are still compared with the model): every signal / memo / wrapper is read through one of get, with, *read(), track() + get_untracked(), try_get (and the untracked siblings); every signal is written through one of set, update, maybe_update(true), a write() guard, try_set, try_update, a SignalSetter (from(WriteSignal) / from(RwSignal) / map), update_untracked + notify, a MappedSignal / ArcMappedSignal view, write_untracked + notify (and notified through notify(), an untouched write guard or update(|_| {})); memos are built with new / new_with_compare, new_owning (the body returns the changed flag) or as the other handle type and converted; derived signals also as MaybeSignal::derive, MaybeProp (from / derive), Signal<Option<T>>::from, Signal::from(MaybeSignal), derive_local / stored_local / Signal<_, LocalStorage>::from, From<T>; effects also as Effect::new_sync, Effect::watch_sync, RenderEffect::new_isomorphic / new_with_value, ImmediateEffect::new_isomorphic / new_scoped / new_mut; an effect is also disposed through Dispose::dispose / Effect::stop on its handle; a case flag makes the executor hand out a NEW waker on every poll (older wakers are dead) and another one switches untrack to untrack_with_diagnostics. A 'wide' family has 17-40 direct subscribers on one signal; a 'silent' family (oracle only) interleaves operations that are NOT writes (maybe_update returning false, write().untrack(), ...): nothing may run because of them; an 'adopt' family (oracle only) creates effects in the middle of the history. Observation = every body invocation with the values it read. A case is non-trivial "
+        "oracle only) and 'deep' (chains of 270-700 memos) families of C01. Since the anchor coverage audit half of the cases of every stream carry API VARIANTS on their nodes (fields the model's decoder does not read, so the traces are still compared with the model): every signal / memo / wrapper is read through one of get, with, *read(), track() + get_untracked(), try_get (and the untracked siblings); every signal is written through one of set, update, maybe_update(true), a write() guard, try_set, try_update, a SignalSetter (from(WriteSignal) / from(RwSignal) / map), update_untracked + notify, a MappedSignal / ArcMappedSignal view, write_untracked + notify (and notified through notify(), an untouched write guard or update(|_| {})); memos are built with new / new_with_compare, new_owning (the body returns the changed flag) or as the other handle type and converted; derived signals also as MaybeSignal::derive, MaybeProp (from / derive), Signal<Option<T>>::from, Signal::from(MaybeSignal), derive_local / stored_local / Signal<_, LocalStorage>::from, From<T>; effects also as Effect::new_sync, Effect::watch_sync, RenderEffect::new_isomorphic / new_with_value, ImmediateEffect::new_isomorphic / new_scoped / new_mut; an effect is also disposed through Dispose::dispose / Effect::stop on its handle; a case flag makes the executor hand out a NEW waker on every poll (older wakers are dead) and another one switches untrack to untrack_with_diagnostics. A 'wide' family has 17-40 direct subscribers on one signal; a 'silent' family (oracle only) interleaves operations that are NOT writes (maybe_update returning false, write().untrack(), ...): nothing may run because of them; an 'adopt' family (oracle only) creates effects in the middle of the history. A 'cleanup' family (and a quarter of the memos+effects cases) has effect bodies / watch dependency fns that register "
+        "Owner::on_cleanup callbacks reading a signal the body does not read ((10 j): value 0, no event, so still compared with the model): the "
+        "history re-runs the effect, then writes that signal, and nothing may run. Observation = every body invocation with the values it read. A case is non-trivial "
         "when some body ran at least twice; distinct = distinct case hash.")
 TRUSTED = [
     "Coq 8.16.1 kernel (coqc); no axioms: every theorem of Properties_C09.v is 'Closed under the global context'",
@@ -46,6 +48,7 @@ ASSUMPTIONS = [
     "deep chains (270-700 memos) are part of the generated graphs; stacked diamonds are kept to at most 4 per chain "
     "(the push phase re-propagates on every incoming path)",
     "an operation that does not notify is not a write: maybe_update / try_maybe_update whose closure returns false, a write() guard that is untracked before it is dropped, update_untracked / write_untracked without a following notify() leave the value as it is in the generated cases; a value stored without notification (update_untracked that really changes it) is outside the property (the graph cannot know) and is not generated",
+    "what an on_cleanup callback reads is not 'read by the computation': the callbacks of the previous run execute before the next run starts, outside its tracking scope (Owner::with_cleanup around with_observer); the generated callbacks read plain signals only",
 ]
 LEVEL_TEXT = ("Coq proofs, over the same executable model as C01/C02 instrumented with ghost causes, that a memo body is invoked "
               "again only after a tracked source was written or a tracked memo changed, at most once per change, never because "
@@ -57,6 +60,9 @@ TECHNIQUE = "Coq proof (invariant with ghost cause sets) + differential correspo
 
 def _main_stream(rng, tier):
     n1, n2 = (8000, 10000) if tier == "quick" else (80000, 100000)
+    # what an on_cleanup callback reads is never a reason to run
+    for i in range(800 if tier == "quick" else 8000):
+        yield dict(case=C.norm(X.gen_cleanup_case(rng)), kind="cleanup", compare=True)
     for i in range(n1):
         prog = X.gen_program(rng, rng.randint(3, 10), 0, p_always=0.2, new_wrappers=True)
         ops = X.gen_ops(rng, prog, rng.randint(10, 50), w=(0.40, 0.06, 0.54, 0, 0, 0), vals=(0, 1, 1, 2), p_drop=0.3)
@@ -76,9 +82,6 @@ def _main_stream(rng, tier):
         yield dict(case=C.norm(X.gen_zone_case(rng)), kind="zones", compare=True)
     for i in range(40 if tier == "quick" else 400):
         yield dict(case=C.norm(X.gen_wide_case(rng, rng.randint(17, 40), rng.choice([0, 1, 2, 3]))), kind="wide", compare=True)
-    # what an on_cleanup callback reads is never a reason to run
-    for i in range(800 if tier == "quick" else 8000):
-        yield dict(case=C.norm(X.gen_cleanup_case(rng)), kind="cleanup", compare=True)
     # operations that are NOT writes (maybe_update returning false, write().untrack(), ...): nothing may run
     for i in range(1500 if tier == "quick" else 15000):
         prog = X.gen_program(rng, rng.randint(3, 9), rng.choice([0, 1, 1, 2]), allow_wr=False, p_always=0.15)
